@@ -11,7 +11,7 @@ META = dict(
 
 
 def run(ctx):
-    n = 100 if ctx.tier == "quick" else 2000
+    n = 100 if ctx.tier == "quick" else 6000
     fams = [("gen", "gen.idem", n), ("gen", "gen.idem1", n), lambda: pc.family_faults(True, ctx.seed), lambda: pc.family_gates(True), pc.family_idem_clean, lambda: pc.family_resubmit(True), lambda: pc.family_error_codes(True),
             pc.family_idem_extra]
     mc = ["MCProducer.idem.cfg"] if ctx.tier == "quick" else ["MCProducer.idem.cfg", "MCProducer.liveidem.cfg"]
